@@ -115,5 +115,13 @@ func RandomMaxSat(r *Rng, maxVars int, clausesOnly bool) *MaxSat {
 			m.W[i] = 1
 		}
 	}
+	if clausesOnly { // the empty clause is a well-formed WCNF clause: "<weight> 0"
+		if len(m.Soft) > 0 && r.Chance(1, 10) {
+			m.Soft[r.Intn(len(m.Soft))] = ref.Lin{Lits: []int{}, Rel: ref.GE, Rhs: 1}
+		}
+		if len(m.Hard) > 0 && r.Chance(1, 40) {
+			m.Hard[r.Intn(len(m.Hard))] = ref.Lin{Lits: []int{}, Rel: ref.GE, Rhs: 1}
+		}
+	}
 	return m
 }
